@@ -32,6 +32,22 @@ CLAIMED["C19"] = dict(
    note="Assumed (listed in evidence): the floating-point prologue of New (Pow10/Log2/Ceil/Floor/Pow) yields subBucketHalfCountMagnitude in {4,7,10,14,17}, subBucketCount = 2^(hcm+1), unitMagnitude = floor(log2 min); shapes restricted to 1 <= min < 2^44, max < 2^62.",
    technique="contract-based deductive verification in QF_BV (case split on the five sub-bucket magnitudes)")
 
+CLAIMED["C03"] = dict(
+   text="Worker-group error contract, the per-function part: WorkerGroupConf.CanContinueOnError is proved against the sentence of the property over the full domain of errors.Is facts and option flags (recorded exactly once iff reportable: panic, or none of skip/EOF/excluded and context errors only when included; continue per the table); ers.Is and IsExpiredContext against errors.Is; ers.ParsePanic: a non-nil panic value yields a non-nil result that carries ErrRecoveredPanic and the original error. Not decided by contracts: the cross-goroutine counts (items started after the first failure, exactly-once with ContinueOnError) and the WithRecover/ReadAll closure wiring (not yet under contract).",
+   ref="DESIGN.md 7/C03",
+   note="Trusted: errors.Is as an uninterpreted relation (reflexive on non-nil, false on nil); unknown callbacks (ErrorHandler) counted by ghost calls(f).",
+   technique="contract-based deductive verification (loop-free full-domain proof of the classification table)")
+CLAIMED["C12"] = dict(
+   text="ers.Stack as a ghost sequence view (newest first) over its node chain: Push (nil ignored, plain error becomes the newest constituent, flattening operands lose nothing already present), Add, Len, Ok, Resolve (nil iff empty, the single error itself, else the stack), Unwrap, Is, Unwind (exactly the view), Join (nil iff nothing supplied, single plain error returned as itself, constituents carried), ParsePanic; erc.Collector Add/Len/Resolve/HasErrors/Ok under its mutex with the stack invariant as lock invariant (all interleavings). Not proved: errors.Is/As over the whole chain (follows from the proved Is/Unwrap contracts by the trusted chain-following semantics of errors.Is); order of constituents of nested stacks.",
+   ref="DESIGN.md 7/C12",
+   note="Trusted: errors.Is/As semantics; unknown Unwind()/Unwrap() []error implementations return arbitrary slices.",
+   technique="contract-based deductive verification with ghost sequences and quantified chain invariants")
+CLAIMED["C16"] = dict(
+   text="dt.List kernel against a ghost sequence model with inverse index: uncheckedAppend/uncheckedRemove preserve the circular doubly-linked well-formedness (forward links, backward links, ownership, Len, view all agree) and perform insert/remove on the view; Append/Remove/Drop/Set/In, PushFront/PushBack, PopFront/PopBack/pop, Front/Back, Len, lazySetup proved including every rejected case (nil, not-ok, detached, already attached, root, other list) leaving all lists unchanged. Swap is a recorded known finding. Not yet under contract: Extend, Copy, iterators, JSON, dt.Stack.",
+   ref="DESIGN.md 7/C16",
+   note="Trusted: none beyond the engine; element handles are arbitrary references constrained only by the well-formedness of the list they claim to belong to.",
+   technique="contract-based deductive verification with ghost sequences, ghost inverse index and quantified invariants")
+
 NOT_APPLICABLE = {
  "C01": "exactly-once delivery across an unbounded set of goroutines and channels is a whole-execution property; no per-function contract within reach of the generator states it (DESIGN 7/C01)",
  "C04": "liveness (every goroutine eventually exits, a blocked consumer returns promptly): contracts give partial correctness only (DESIGN 7/C04)",
